@@ -1,5 +1,5 @@
 ENGINES = [
-    {'name': 'E-A', 'path': 'mc/ea.py', 'serves_properties': [], 'kind_free_text': 'declaration x input explorer: enumerated packet declarations rendered to real classes, all byte strings up to a length bound, reference interpreter as oracle'},
+    {'name': 'E-A', 'path': 'mc/ea.py', 'serves_properties': ['C01','C02','C03','C04','C05','C06','C07','C08','C09','C10','C12','C14','C18','C19','C20'], 'kind_free_text': 'declaration x input explorer: enumerated packet declarations rendered to real classes, all byte strings up to a length bound, reference interpreter as oracle'},
     {'name': 'E-B', 'path': 'mc/props', 'serves_properties': ['C11', 'C13', 'C15', 'C17'], 'kind_free_text': 'operation-history explorer: all histories up to a depth over a small alphabet on fresh real objects vs a reference model'},
     {'name': 'E-C', 'path': 'mc/sched.py, mc/fsx.py', 'serves_properties': [], 'kind_free_text': 'schedule / fault explorer: preemption-bounded thread schedules, file-system step interleavings and crash points'},
 ]
@@ -31,5 +31,30 @@ CHECKS['C09'] = {
     'text': 'All trees of depth <=2 over the 18 binary operators in every operand order, unary operators, indexing/slicing/len and the n-ary selectors (all four call forms) are built through the real operator overloads, compiled by compile_expr_into_callable and evaluated on all operand values a,b in -2..3 (and sequence/bytes operands); value, type and exception class must equal eager evaluation. Depth<=1 and selected depth-2 trees also go through Data size / repeated count / when in real classes.',
     'note': 'Operand domain -2..3; nesting depth 2 (quick: depth 2 nested on one side).',
 }
+
+_EA_NOTE = 'Trusts the reference interpreter mc/refsem.py (written from the documentation, DESIGN.md appendix A) and the renderer mc/ir.py; bounded: component alphabet of mc/alphabet.py, declarations of <=2 (quick) / <=3 (thorough) components x 3 wrappers, inputs = all strings up to the length the per-declaration budget allows over a declaration-specific byte alphabet.'
+_EA_TECH = 'bounded exhaustive enumeration of packet declarations x all byte strings up to a length bound, executed on real classes, '
+
+CHECKS['C01'] = {'engine': 'E-A', 'technique': _EA_TECH + 'consumed-interval oracle from a reference interpreter',
+    'text': 'Every declaration of the alphabet except the by-design exclusions, every input up to the bound and start offsets 0..2: where unpack succeeds with the reference values, pack() must equal raw on every consumed byte, "." elsewhere, not exceed the traversed region, and raise PacketError iff two fields consumed the same byte.',
+    'note': _EA_NOTE}
+CHECKS['C02'] = {'engine': 'E-A', 'technique': _EA_TECH + 'reference encoder + reparse oracle',
+    'text': 'All distinct value assignments the reference parses from the input enumeration (plus defaults), built by keywords and by attribute assignment: pack() == reference encoding; when the reference round-trips, unpack consumes the whole string and returns equal values, assert_consistency() is True, the packet is unchanged.',
+    'note': _EA_NOTE}
+CHECKS['C04'] = {'engine': 'E-A', 'technique': _EA_TECH + 'acceptance compared with a strict reference interpreter on every truncation',
+    'text': 'unpack may succeed only if the strict reference succeeds; the input sets are prefix-closed and extended byte by byte for wide integers (3..16 bytes) and 24..48-bit groups, so every truncation point of every encoding up to the bound is tried; silent=True returns None exactly when unpack raises.',
+    'note': _EA_NOTE}
+CHECKS['C06'] = {'engine': 'E-A', 'technique': _EA_TECH + 'sentinel-framed single-Data programs vs reference',
+    'text': 'pre/Data/post programs for every sizing mode x include_delimiter x consume_delimiter x search_buffer_length (unset,0,2,3), flat and in a repeated reference, generated and generic; all inputs up to the bound (markers straddling the window, overlapping prefixes aab, empty values): value, cursor, error cases and pack = value + literal delimiter.',
+    'note': _EA_NOTE}
+CHECKS['C08'] = {'engine': 'E-A', 'technique': _EA_TECH + 'acceptance, values and end offset vs reference interpreter',
+    'text': 'All repeated/optional/reference components (count/condition as constant, field, expression, callable; until; when; selectors; per-element alignment) alone, paired and nested through wrappers; unpack must agree with the reference on acceptance, every value and the end offset for all inputs up to the bound.',
+    'note': _EA_NOTE}
+CHECKS['C19'] = {'engine': 'E-A', 'technique': 'exhaustive enumeration of declarations x all subsets of keyword overrides vs reference defaults',
+    'text': 'K() (twice: values and no shared mutable object) and K(**kw) for every subset of top-level fields on every declaration, module-level and function-local; values vs reference defaults, pack vs reference encoding. embed=True is a listed known finding.',
+    'note': _EA_NOTE}
+CHECKS['C20'] = {'engine': 'E-A', 'technique': 'exhaustive enumeration of declarations x accepted values x all single-leaf mutations (metamorphic)',
+    'text': 'For every declaration (all positioned/aligned/Em/class-align ones included) and every distinct accepted value: parsed==parsed, constructed==parsed, every one-leaf mutation at any depth unequal, twin class/None/non-packet unequal, repr is a str, nothing raises.',
+    'note': _EA_NOTE}
 
 NOT_APPLICABLE = {}
